@@ -3,7 +3,7 @@
 # Evidence files of /verif are preserved; replay files produced go to <outdir>.
 # usage: try_patch.sh <patch.diff> <outdir> <check> [<check> ...]
 set -u
-patch="$1"; out="$2"; shift 2
+patch="$(realpath "$1")"; out="$2"; shift 2
 mkdir -p "$out"
 cd /verif
 [ -z "$(git -C /repo status --porcelain --untracked-files=no)" ] || { echo "/repo is not clean"; exit 2; }
